@@ -20,6 +20,7 @@ func init() {
 			"R4 the aggregator match cache is accessed under its mutex, keyed by the name being looked up, and stores only the fresh result for that key or the entry just read.",
 		NotDecided: "RE2 semantics of the expression itself; the derived prefix beyond the first three scan steps of regexToPrefix (R7 relies on the loop body being the same for every later position) and for implementations that are not a byte scan; cache expiry timing.",
 		Rules: []RuleDef{
+			{ID: "C03.R8", Min: 4, Doc: "the internal byte fields mirror the options: every store into Matcher.prefix / notPrefix / sub / notSub stores []byte(<the equally named option string of the same Matcher>) — the truth tables of R3 speak about these fields, this rule ties them to what was configured", Run: c03r8},
 			{ID: "C03.R7", Min: 1, Doc: "derived prefix: every path of matcher.regexToPrefix over the first scan steps (concrete scan position, comparisons evaluated over the 256 byte values) that yields a prefix has seen '^' at position 0 and no '|' in the expression, takes only characters that stand for themselves (or the character of an escaped punctuation) contiguously from position 1, and leaves out the character in front of ?, * or {", Run: c03r7},
 			{ID: "C03.R1", Min: 12, Doc: "name only: at every call site of a filter entry point the argument has kind NAME (fields[0] of bytes.Fields, ValidatePacket's key, line[:IndexByte(line,' ')], RW.Do of a NAME, or a NAME parameter), and no store to the name slot can occur between reading it and the call; the LINE kind that route.metricName relies on (name = text before the first space) is established at every Route.Dispatch call site (rule C04.R2 evaluated for this property as well)", Run: func(c *Check) { c03r1(c); c04r2(c) }},
 			{ID: "C03.R2", Min: 4, Doc: "aggregation filter completeness: in AddMaybe every path to the send on Aggregator.in passed the true edge of PreMatch(name); in run every path to AddOrCreate passed the ok edge of matchWithCache; the matcher fields read by PreMatch and MatchRegexAndExpand cover prefix, notPrefix, sub, notSub, regex, notRegex", Run: c03r2},
@@ -971,4 +972,44 @@ func cacheLookupFunc(c *Check) (*ssa.Function, *ssa.Parameter) {
 		}
 	}
 	return mwc, mwc.Params[1]
+}
+
+// c03r8: the byte-slice fields that Match and PreMatch test (prefix, notPrefix, sub, notSub) are the
+// configured options themselves: every store into one of them, anywhere in the module, stores
+// []byte(<the equally named option string of the same Matcher>). The truth tables of R3 are stated
+// over these fields; this rule ties the fields to the options a user configured.
+func c03r8(c *Check) {
+	n := 0
+	for _, low := range []string{"prefix", "notPrefix", "sub", "notSub"} {
+		up := strings.ToUpper(low[:1]) + low[1:]
+		fLow := c.P.Field("matcher", "Matcher", low)
+		fUp := c.P.Field("matcher", "Matcher", up)
+		bad := ""
+		stores := 0
+		for _, fn := range c.P.Funcs {
+			allInstrs(fn, func(in ssa.Instruction) {
+				st, ok := in.(*ssa.Store)
+				if !ok {
+					return
+				}
+				fa, ok := st.Addr.(*ssa.FieldAddr)
+				if !ok || fieldOfAddr(fa) != fLow {
+					return
+				}
+				stores++
+				cv, ok := st.Val.(*ssa.Convert)
+				if !ok {
+					bad = "Matcher." + low + " is assigned something other than []byte(" + up + ") at " + c.At(st)
+					return
+				}
+				base, f, ok := fieldLoad(cv.X)
+				if !ok || f != fUp || !sameBase(base, fa.X) {
+					bad = "Matcher." + low + " is assigned something other than []byte(" + up + ") of the same matcher at " + c.At(st)
+				}
+			})
+		}
+		n++
+		c.Judge(bad == "" && stores > 0, "matcher.Matcher."+low+" mirrors option "+up, "matcher/matcher.go", fmt.Sprintf("%d stores, all []byte(m.%s)", stores, up), bad+": the condition that Match/PreMatch evaluate is no longer the configured option (e.g. it is replaced by a longer prefix derived from the regex, so the user's prefix condition is lost)")
+	}
+	_ = n
 }
